@@ -23,6 +23,10 @@ def run(ctx):
     cfgs = ["MC_AfcShm_c41_thorough.cfg"] if ctx.thorough else ["MC_AfcShm_c41.cfg"]
     (beh, trace), sel = afc_util.shm_check(ctx, vh, "C41", cfgs, ("MC_AfcShm_mut_bump.cfg", "RemovalEffective"))
     afc_util.mem_check(ctx, vh, "C41")
+    if ctx.nviol:
+        # self-tests use the recorded results of this run; with violations present they prove nothing
+        ctx.cov["selftests"] = ["skipped: the run found violations"]
+        return
     # binding self-tests
     # (a) a corrupted history (a NotFound turned into success after the removal returned) must be rejected
     lines = open(trace).read().splitlines()
